@@ -26,6 +26,7 @@ FnsCore == <<
   Path("$", <<Nm(kl), Wild>>, <<>>),
   Path("$", <<Rec, Wild>>, <<>>),
   Path("$", <<Nm(kl), Wild, Nm(ka)>>, <<AF(Fn_g1)>>),
+  Path("$", <<Nm(kl), Wild, Nm(ka)>>, <<AF(Fn_gid)>>),     \* the aggregate returns the very list it was given
   L(And(Exist(Px), Cmp("==", Pa, Px))),
   Path("$", <<Nm(kl), Un(<<Sl(-2, FALSE, 2, FALSE, 1, FALSE)>>)>>, <<>>),     \* [-2:2] on lists of different lengths
   Path("$", <<Nm(kl), Nm(ka)>>, <<>>),
